@@ -556,6 +556,34 @@ pub fn run_bulk_selected(ctx: &Ctx, prefix: &str, is_async: bool, which: &[&str]
             }
         }).trace(60));
     }
+    // (3a) the default constructor on the largest messages: its own maximum-length constant, not the
+    // one the minimal-capacity readers of the length sweep are built with
+    if which.contains(&"default_capacity") {
+        let lens: Vec<usize> = (65_400..=65_535).chain([4, 5, 19, 20, 21, 4096, 32_768, 65_399]).collect();
+        let sp = Space::new(&[lens.len(), 2, 2]);
+        let s2 = sp.clone();
+        let lens = &lens;
+        ctx.run_family(Family::new(format!("{}.bulk.default_top_lengths", prefix), sp.size(), "the default constructor (default buffer and maximum-length constants) on [short, a message of EVERY declared length 65400..=65535 (and 8 smaller ones), short] x storage mode x 2 schedules".to_string(), move |i, loc| {
+            let c = s2.coords(i);
+            let (l, storage) = (lens[c[0]], c[1] == 1);
+            let pat = if c[2] == 0 { Pattern { chunk: 0, disturb_every: 0 } } else { Pattern { chunk: 4093, disturb_every: 3 } };
+            let mut s = vec![];
+            verbose_message(l, storage, &mut s);
+            message_of_len(l, l / 3, storage, &mut s);
+            verbose_message(l + 1, storage, &mut s);
+            let s = Arc::new(s);
+            loc.evals += 1;
+            loc.traces += 1;
+            loc.state(mix(l as u64, i + 0x3a00_0000), true);
+            match run_reader(is_async, &s, storage, pat, Cap::Default, None) {
+                Ok(st) => {
+                    loc.transitions += st.deliveries + st.disturbances;
+                    loc.outcome("stream delivered as cut");
+                }
+                Err(why) => viol(loc, &key_of(&why), format!("default constructor, declared length {}, storage mode {}; {}", l, storage, pat.describe(is_async)), why),
+            }
+        }));
+    }
     // (3) the default constructor: streams longer than its 10 MiB buffer
     if which.contains(&"default_capacity") {
         let sizes: Vec<usize> = match tier {
